@@ -31,7 +31,8 @@ COMPONENTS = dict(c01.COMPONENTS)
 
 def gen(seed, tier):
     r = rng_for(seed, "workload")
-    rows = G.gen_rows(r, r.randint(0, 12), disjoint=r.random() < 0.6, long_rows=r.random() < 0.15)
+    rows = G.gen_rows(r, r.randint(0, 12), disjoint=r.random() < 0.6, long_rows=r.random() < 0.15,
+                      t0=G.EPOCH_NS if r.random() < 0.3 else 0)
     start, end = G.run_span([rows], r)
     nodes = [{"name": "sa", "kind": "source", "rows": rows, "bounds": G.gen_bounds(r, rows, start, end, max_chunks=6)},
              {"name": "m0", "kind": "rowmap", "dep": "sa", "a": 3, "b": 1},
@@ -101,6 +102,10 @@ def shrink(w):
             yield dict(w, layouts=dict(w["layouts"], **{d: [b[0], b[-1]]}))
 
 
+def run_start_floor(w):
+    return (w["spec"]["nodes"][0]["bounds"][0] // 10 ** 9) * 10 ** 9
+
+
 def expected(w, orc):
     targets, req = w["targets"], w["req"]
     base = orc[targets[0]]
@@ -113,7 +118,10 @@ def expected(w, orc):
     if req["range_kind"] == "time_range":
         tr = tuple(req["range"])
     elif req["range_kind"] == "seconds_range":
-        tr = (int(1e9 * (req["range"][0] / 1e9)), int(1e9 * (req["range"][1] / 1e9)))
+        # seconds since the run start (floored to whole seconds), converted back the documented way:
+        # integer run start + int(1e9 * seconds)
+        t0 = run_start_floor(w)
+        tr = (t0 + int(1e9 * ((req["range"][0] - t0) / 1e9)), t0 + int(1e9 * ((req["range"][1] - t0) / 1e9)))
     elif req["range_kind"] == "time_within":
         tr = tuple(req["within"])
     if tr is not None:
@@ -151,7 +159,8 @@ def execute(w, seed, strategy="random", forced=None, strict=False):
         if req["range_kind"] == "time_range":
             kw["time_range"] = tuple(req["range"])
         elif req["range_kind"] == "seconds_range":
-            kw["seconds_range"] = (req["range"][0] / 1e9, req["range"][1] / 1e9)
+            t0 = run_start_floor(w)
+            kw["seconds_range"] = ((req["range"][0] - t0) / 1e9, (req["range"][1] - t0) / 1e9)
         elif req["range_kind"] == "time_within":
             tw = np.zeros(1, dtype=[("time", np.int64), ("endtime", np.int64)])
             tw["time"], tw["endtime"] = req["within"]
